@@ -272,10 +272,17 @@ class Client(object):
         self._flush_pipeline()
         if 'AUTH' not in self.extensions:
             return unknown_command
-        auth_ext = self.extensions.getparam('AUTH')
-        assert auth_ext is not None
-        advertised = [self._encode(mech_name)
-                      for mech_name in auth_ext.split()]
+        auth_ext = self.extensions.getparam('AUTH') or ''
+        advertised = []
+        for mech_name in auth_ext.split():
+            # Servers advertise mechanisms this library does not implement
+            # (GSSAPI, NTLM, ...) and spell the names as they please.
+            name = self._encode(mech_name).upper()
+            try:
+                SASLAuth.named([name])
+            except KeyError:
+                continue
+            advertised.append(name)
         auth = AuthSession(SASLAuth.named(advertised), self.io)
         if not mechanism and auth.client_mechanisms:
             mechanism = auth.client_mechanisms[0].name
